@@ -66,3 +66,24 @@ package parser
 //@ props C11
 //@ requires toklst != nil && (p.current.Kind == Charater ==> len(p.current.Value) >= 1)
 //@ after_stmt [C11] "id := Idendity{" id.Value == int(rune_at(p.current.Value, 0))
+
+// ---------------------------------------------------------------------------------------------
+// C13: generation terminates on every input text.
+// Assumption A-seq: the lexer goroutine and the parser communicate through one unbuffered channel, one
+// sender, one receiver: the k-th receive yields the k-th token sent (spec_recv(k), ok) while the channel is
+// open, and the zero value with ok == false once it is closed. "fetched" counts receives.
+
+func spec_recv(i int) Token { panic("spec") }
+func spec_recvOK(i int) bool { panic("spec") }
+
+//@ ghostvar fetched int
+
+// Once the lexer has closed the channel the parser must see end of input - not a zero Token, which no parser
+// loop treats as a reason to stop.
+//@ func (*lexer).nextToken
+//@ props C13
+//@ results tok
+//@ ensures [C13] fetched == old(fetched) + 1
+//@ ensures [C13] spec_recvOK(old(fetched)) ==> tok == spec_recv(old(fetched))
+//@ ensures [C13] !spec_recvOK(old(fetched)) ==> tok.Kind == EOF
+//@ modifies fetched
